@@ -383,6 +383,7 @@ func genWord(c *reg.Ctx) string {
 
 type genCtx struct {
 	c      *reg.Ctx
+	env    []string
 	nobj   int
 	live   []int64 // fds known to hold a port
 	reader bool    // pipeline reader: never use fd 0 as a source, never path 3
@@ -449,6 +450,10 @@ func (g *genCtx) genRedir(outer bool) redir {
 		rd.Src = src{Kind: "close"}
 	case x < 19 && g.nobj > 0:
 		rd.Src = src{Kind: "obj", Obj: r.Intn(g.nobj)}
+		if g.env[rd.Src.Obj] == "pipe" && rd.Mode == 0 {
+			// reading an environment pipe whose write end is open would block forever
+			rd.Mode = 1
+		}
 	case x < 19:
 		rd.Src = src{Kind: "file", Path: r.Intn(npaths)}
 	default:
@@ -575,6 +580,7 @@ func genJob(c *reg.Ctx, id int, dir string) job {
 			}
 		}
 		g.nobj = len(j.Env)
+		g.env = j.Env
 	}
 	if r.Intn(3) == 0 {
 		n := 1 + r.Intn(3)
